@@ -527,6 +527,17 @@ func reachesWriter(v ssa.Value, valueSinksOnly bool) bool {
 				if q == "math/big.NewInt" || q == "math/big.Int.SetInt64" || q == "math/big.Int.SetUint64" {
 					return true
 				}
+				// an in-module helper that hands its integer parameter to math/big (VarUInteger16FromInt64
+				// and friends): the value, not the bit pattern, is what it keeps
+				if sc := x.Call.StaticCallee(); sc != nil && inModule(sc) && d < 6 {
+					for i, a := range x.Call.Args {
+						if a == v && i < len(sc.Params) && isInteger(sc.Params[i].Type()) {
+							if rec(sc.Params[i], d+3) {
+								return true
+							}
+						}
+					}
+				}
 				if !valueSinksOnly && (strings.HasPrefix(q, bocPath+".Cell.Write") || strings.HasPrefix(q, bocPath+".BitString.Write") || strings.Contains(q, "Endian.PutUint") || strings.Contains(q, "Endian.AppendUint")) {
 					return true
 				}
